@@ -183,7 +183,7 @@ SharedNames == {"u8", "u16", "u32", "u64", "usize", "i8", "i16", "i32", "i64", "
                 "wrapu16", "cellu32", "refcellstring", "boxu64",
                 "abool", "au8", "au16", "au32", "au64", "ausize", "ai8", "ai16", "ai32", "ai64", "aisize",
                 "optu8", "optstring", "optvecu16",
-                "tup1", "tup2", "tup3", "tup4", "tup16", "arr0u8", "arr1string", "arr3i32", "arr16u8", "arr32u8",
+                "tup1", "tup2", "tup3", "tup4", "tup16", "arr0u8", "arr1string", "arr3i32", "arr23u16", "arr24bool", "arr25i8", "arr16u8", "arr32u8",
                 "vecu8", "vecstring", "vecvecu16", "vecoptbool", "vecdequei32", "linkedlistu64",
                 "btreesetu16", "binaryheapu8", "hashsetstring", "hashseti32",
                 "btreemapu8string", "btreemapstringvecu8", "hashmapu16bool", "hashmapstringi64",
